@@ -306,11 +306,11 @@ Fixpoint an_fin (a : analysis) : bool :=
   | ASweep inner _ sw _ => sweep_fin sw && forallb an_fin inner
   | AMonte inner n _ => in_i64 n && forallb an_fin inner
   end.
-(* a Prefixed whose number is integral is carried as int64 *)
+(* every Prefixed can be carried: an integral number inside 64 bits as int64, any other number - since the repair of
+   export_prefixed (integral values beyond 64 bits take the string variant instead of raising) - as its exact decimal text *)
 Definition pnum_fin (x : num) : bool :=
   match x with
-  | NPre nm ne pe => if 0 <=? ne then in_i64 (nm * 10 ^ ne)
-                     else if nm mod 10 ^ (- ne) =? 0 then in_i64 (nm / 10 ^ (- ne)) else true
+  | NPre nm ne pe => true
   | NLit _ => true
   end.
 (* vlsir.spice.Save.SaveMode has the members NONE and ALL only (Hdl21Gen.C17Tables.vlsir_save_modes): the schema
